@@ -90,9 +90,11 @@ def run(chk, orch):
     # files are still around), then the run under test starts with --force, is killed and resumed
     wls.append(({"seed": 28, "n_chr": 2, "genes_per_chr": 2, "reads_per_iso": 2, "paralogs": 0, "novel": 0, "n_exp": 2,
                  "exp_mode": "split", "supplementary": 0, "lowmapq": 0, "intergenic": 0, "mono": 0},
-                {"pre": {"spec": {"seed": 29, "n_chr": 2, "genes_per_chr": 2, "reads_per_iso": 3, "paralogs": 0, "novel": 0,
+                # (both runs are given plain-gzip references with one file name: the unpacked copy of the first is still there)
+                {"ref_gz": True,
+                 "pre": {"spec": {"seed": 29, "n_chr": 2, "genes_per_chr": 2, "reads_per_iso": 3, "paralogs": 0, "novel": 0,
                                   "n_exp": 2, "exp_mode": "same", "supplementary": 0, "lowmapq": 0, "intergenic": 0, "mono": 0},
-                         "opts": {"keep_tmp": True, "threads": 1}}},
+                         "opts": {"keep_tmp": True, "threads": 1, "ref_gz": True}}},
                 dict(common.GOLDEN_CELL, threads=1, bufsize=8192)))
     # ... and the same with an earlier run that was itself KILLED in the second stage (one chromosome already marked as processed)
     wls.append(({"seed": 30, "n_chr": 2, "genes_per_chr": 2, "reads_per_iso": 2, "paralogs": 0, "novel": 1,
